@@ -75,14 +75,17 @@ def ref_subcircuits(tree):
                 out += walk(c, reps_stack)
             return out
         if k == "sub":
-            if state["cur"] is not None:
-                pass   # a subcircuit re-prepares: gates before it in an open segment are discarded
-            state["cur"] = None
-            body = []
+            # by definition  prepare_all ; body ; measure_all  - the body is read by the same rules (it may itself contain
+            # a prepare_all, which restarts, or a measure_all, after which the block's own measure_all is ill-bracketed)
+            state["cur"] = []
+            out = []
             for c in t[2]:
-                body += list(unroll(c))
-            segs.append(body)
-            return [len(segs) - 1]
+                out += walk(c, reps_stack)
+            if state["cur"] is None:
+                raise Rejected("measure_all without prepare_all")
+            segs.append(state["cur"])
+            state["cur"] = None
+            return out + [len(segs) - 1]
         if k == "loop":
             n = int(t[1])
             if not has_bracket(t):
